@@ -80,3 +80,105 @@ func c19Helpers(c *Ctx) {
 		r.Check(good, rule, pk+".prbs23", c.Prog.Rel(c.Prog.SSAFunc(pk, "prbs23").Pos()), "23-bit LFSR step with taps 0 and 5", why, true)
 	}()
 }
+
+// c19RefMatrixLine is an independent transcription of the parity-matrix line of TS004 (Fragmented Data Block
+// Transport, FEC matrix): line n (1-based) for m data fragments.
+func c19RefMatrixLine(n, m int) []int {
+	line := make([]int, m)
+	mm := 0
+	if m > 0 && m&(m-1) == 0 {
+		mm = 1
+	}
+	x := 1 + 1001*n
+	for k := 0; k < m/2; k++ {
+		r := 1 << 16
+		for r >= m {
+			b0, b1 := x&1, (x>>5)&1
+			x = (x >> 1) + ((b0 ^ b1) << 22)
+			r = x % (m + mm)
+		}
+		line[r] = 1
+	}
+	return line
+}
+
+// c19Parity (rule C19-R6.parity): for a grid of fragment counts and fragment sizes the encoder is interpreted on fully
+// symbolic data bytes (the fragment count, size and redundancy are concrete, so the pseudo-random matrix construction
+// runs on constants inside the interpreter); proved for all data at once: the result has w + redundancy rows, row i < w
+// is the i-th data fragment, and byte k of parity row y is the XOR of byte k of exactly the data fragments that the
+// independently transcribed matrix line y+1 selects.
+func c19Parity(c *Ctx) {
+	r := c.Run
+	const rule = "R6.parity"
+	const pk = "applayer/fragmentation"
+	r.Rule(rule, "Encode(data, fs, red) = the w data fragments followed by red parity fragments, parity y = XOR of the data fragments selected by line y+1 of the specification's matrix, for every data content (fragment counts 1..17 and sizes 1..16 on a grid, redundancy 4)")
+	const red = 4
+	for _, w := range []int{1, 2, 3, 4, 8, 10, 16, 17} {
+		for _, fs := range []int{1, 7, 8, 9, 16} {
+			key := fmt.Sprintf("%s.Encode/w%d/fs%d", pk, w, fs)
+			in := absint.NewInterp(c.Prog)
+			d := in.D
+			data := in.SymBytes("data", w*fs)
+			var res []absint.Value
+			if err := in.Try(func() {
+				res = in.CallFunc(pk, "Encode", data, d.Const(int64(fs), 64, true), d.Const(red, 64, true))
+			}); err != nil {
+				if pe, ok := err.(absint.Panic); ok {
+					r.Bad(rule, key, "", "the encoder returns fragments", "panics: "+pe.Why)
+					continue
+				}
+				r.Unknown(rule, key, "", "inside the interpreter's subset", err.Error())
+				continue
+			}
+			if ev, ok := res[1].(*absint.ErrVal); !ok || ev.NonNil != absint.False {
+				r.Bad(rule, key, "", "no error for a data length that is a multiple of the fragment size", in.Show(res[1]))
+				continue
+			}
+			rows, ok := res[0].(*absint.Slice)
+			if !ok || rows.Len() != w+red {
+				n := -1
+				if ok {
+					n = rows.Len()
+				}
+				r.Bad(rule, key, "", fmt.Sprintf("%d rows", w+red), fmt.Sprintf("%d rows", n))
+				continue
+			}
+			good, why := true, fmt.Sprintf("%d data rows and %d parity rows equal the specification for every data content", w, red)
+			for y := 0; y < w+red && good; y++ {
+				row, ok := rows.At(y).V.(*absint.Slice)
+				if !ok || row.Len() != fs {
+					good, why = false, fmt.Sprintf("row %d has the wrong length", y)
+					break
+				}
+				var line []int
+				if y >= w {
+					line = c19RefMatrixLine(y-w+1, w)
+				}
+				for k := 0; k < fs && good; k++ {
+					got := row.At(k).V.(*absint.Bits).Bits()
+					for bit := 0; bit < 8; bit++ {
+						want := absint.False
+						if y < w {
+							want = data.At(y*fs + k).V.(*absint.Bits).Bits()[bit]
+						} else {
+							for x := 0; x < w; x++ {
+								if line[x] == 1 {
+									want = d.M.Xor(want, data.At(x*fs+k).V.(*absint.Bits).Bits()[bit])
+								}
+							}
+						}
+						if diff := d.M.Xor(got[bit], want); diff != absint.False {
+							what := "data"
+							if y >= w {
+								what = fmt.Sprintf("parity (matrix line %d = %v)", y-w+1, line)
+							}
+							good, why = false, fmt.Sprintf("row %d (%s) byte %d bit %d: got %s; e.g. %s", y, what, k, bit, d.Describe(got[bit]), d.Witness(diff))
+							break
+						}
+					}
+				}
+			}
+			r.Check(good, rule, key, c.Prog.Rel(c.Prog.SSAFunc(pk, "Encode").Pos()), "data rows then XOR parity rows per the specification's matrix", why, true)
+		}
+	}
+}
